@@ -58,7 +58,7 @@ var Props = map[string]*PropCfg{
 	"C16": {ID: "C16", E1: true, Syntactic: []string{"package-frame", "nondeterminism-sources", "table-closures-capture-values"}, Level: "proof", Explanation: "Canonical order of list-valued queries, nondeterminism-source sweep, package frame.", Assumptions: []string{"determinism of the host, StateDB and Aspect runtime"}},
 	"C17": {ID: "C17", E1: true, Syntactic: []string{"package-frame", "abort-atomic-only", "no-goroutines", "table-closures-capture-values"}, Level: "proof", Explanation: "Ownership and poll lemmas only: instances share no mutable data (package frame, table closures capture plain values, shared tables rewritten only as private copies); abort touched only atomically. No interleaving is explored.", Assumptions: []string{"Go memory model, sync.Pool, the StateDB and the djpm global are trusted; schedules not explored"}},
 	"C18": {ID: "C18", E2: true, E1: true, Level: "proof", Explanation: "EQ over tracers/** and every EVMLogger call site in vm; unary enter/exit balance on Call.", Assumptions: []string{"encoding/json omitempty semantics"}},
-	"C19": {ID: "C19", E1: true, E2: true, Syntactic: []string{"loopvar-escape"}, Level: "proof", Explanation: "Safety sweep and tracer invariant on callTracer / flatCallTracer methods.", Assumptions: []string{"events arrive well nested (typestate preconditions)", "trusted writers under the zero-offset type invariants of the tracer's slices: (*callFrame).UnmarshalJSON, (*aspectCallFrame).UnmarshalJSON (generated decoders), flatFromNested, flatAspectNested (copies into locals)", "CALL/STATICCALL frames have a non-nil target (assumed data-structure invariant of stripPrecompileCall)"}},
+	"C19": {ID: "C19", E1: true, E2: true, Syntactic: []string{"loopvar-escape"}, Level: "proof", Explanation: "Safety sweep and tracer invariant on callTracer / flatCallTracer methods.", Assumptions: []string{"events arrive well nested (typestate preconditions)", "CALL/STATICCALL frames have a non-nil target (assumed data-structure invariant of stripPrecompileCall)"}},
 	"C20": {ID: "C20", E1: true, E2: true, Ground: []string{"journal-table"}, Level: "proof", Explanation: "Ghost work counter bounded by a declared constant for every flat-fee instruction.", Assumptions: []string{"per-unit costs of StateDB reads and hashing are the reference schedule's"}},
 }
 
